@@ -285,6 +285,75 @@ impl ConstraintDivisor {
     }
 }
 
+// ---------------------------------------------------------------------------------------------------------------------
+// TransitionConstraints::new (air/src/air/transition/mod.rs, C17): the composition coefficients drawn for the transition
+// constraints are handed out in order - the first `num_main` to the main constraints, the FOLLOWING `num_aux` to the auxiliary
+// ones -, the degrees are the context's, and the divisor is from_transition(trace length, the context's exemption count).
+#[derive(Copy, Clone, PartialEq, Eq, Structural)]
+pub struct Deg(pub u64);
+pub struct AirContext {
+    pub main_transition_constraint_degrees: Vec<Deg>,
+    pub aux_transition_constraint_degrees: Vec<Deg>,
+    pub trace_len: usize,
+    pub num_transition_exemptions: usize,
+}
+pub uninterp spec fn from_transition_spec(n: int, k: int) -> ConstraintDivisor;
+impl AirContext {
+    #[verifier::external_body]
+    pub fn num_transition_constraints(&self) -> (r: usize)
+        ensures r == self.main_transition_constraint_degrees.len() + self.aux_transition_constraint_degrees.len()
+    { unimplemented!() }
+    pub fn trace_len(&self) -> (r: usize) ensures r == self.trace_len { self.trace_len }
+    pub fn num_transition_exemptions(&self) -> (r: usize) ensures r == self.num_transition_exemptions { self.num_transition_exemptions }
+}
+impl ConstraintDivisor {
+    #[verifier::external_body]
+    pub fn from_transition(n: usize, k: usize) -> (r: ConstraintDivisor) ensures r == from_transition_spec(n as int, k as int) { unimplemented!() }
+}
+#[verifier::external_body]
+pub fn must_not_panic() requires false { unimplemented!() }
+// std shims: Vec::clone, <[T]>::split_at, <[T]>::to_vec
+#[verifier::external_body]
+pub fn clone_degs(v: &Vec<Deg>) -> (r: Vec<Deg>) ensures r@ == v@ { v.clone() }
+#[verifier::external_body]
+pub fn split_at_e(s: &[E], mid: usize) -> (r: (&[E], &[E]))
+    requires mid <= s.len()
+    ensures r.0@ == s@.subrange(0, mid as int), r.1@ == s@.subrange(mid as int, s.len() as int)
+{ s.split_at(mid) }
+#[verifier::external_body]
+pub fn to_vec_e(s: &[E]) -> (r: Vec<E>) ensures r@ == s@ { s.to_vec() }
+
+pub struct TransitionConstraints {
+    pub main_constraint_coef: Vec<E>,
+    pub main_constraint_degrees: Vec<Deg>,
+    pub aux_constraint_coef: Vec<E>,
+    pub aux_constraint_degrees: Vec<Deg>,
+    pub divisor: ConstraintDivisor,
+}
+impl TransitionConstraints {
+    //@@ source air/src/air/transition/mod.rs
+    //@@ extract anchor="pub fn new(context: &AirContext<E::BaseField>, composition_coefficients: &[E]) -> Self"
+    //@@ rewrite-re "assert_eq!\(\s*([^,]+),\s*([^,]+),[^;]*\);" => "if !(\1 == \2) { must_not_panic(); }"
+    //@@ rewrite "context.main_transition_constraint_degrees.clone()" => "clone_degs(&context.main_transition_constraint_degrees)"
+    //@@ rewrite "context.aux_transition_constraint_degrees.clone()" => "clone_degs(&context.aux_transition_constraint_degrees)"
+    //@@ rewrite "composition_coefficients.split_at(" => "split_at_e(composition_coefficients, "
+    //@@ rewrite "main_constraint_coef.to_vec()" => "to_vec_e(main_constraint_coef)"
+    //@@ rewrite "aux_constraint_coef.to_vec()" => "to_vec_e(aux_constraint_coef)"
+    pub fn new(context: &AirContext, composition_coefficients: &[E]) -> (r: Self)
+        requires
+            // the documented pre-condition (the assertion of the source): one coefficient per transition constraint
+            composition_coefficients.len() == context.main_transition_constraint_degrees.len() + context.aux_transition_constraint_degrees.len(),
+        ensures
+            r.main_constraint_coef@ == composition_coefficients@.subrange(0, context.main_transition_constraint_degrees.len() as int),
+            r.aux_constraint_coef@ == composition_coefficients@.subrange(context.main_transition_constraint_degrees.len() as int, composition_coefficients.len() as int),
+            r.main_constraint_degrees@ == context.main_transition_constraint_degrees@,
+            r.aux_constraint_degrees@ == context.aux_transition_constraint_degrees@,
+            r.divisor == from_transition_spec(context.trace_len as int, context.num_transition_exemptions as int),
+    {
+        /*@@body*/
+    }
+}
+
 proof fn divisorv_canary_must_fail(a: Assertion, n: int, g: B, i: int)
     requires blaws(), ord_ok(g, n), valid(a, n), 0 <= i < n
     ensures pw(pw(g, i as nat), num_steps(a, n) as nat) == pw(g, (num_steps(a, n) * a.first_step) as nat)
